@@ -161,18 +161,19 @@ Bucket_grow(Bucket *self, int newsize, int noval)
             goto Overflow;
         UNLESS (keys = BTree_Realloc(self->keys, sizeof(KEY_TYPE) * newsize))
             return -1;
+        /* realloc may have moved (and freed) the old block: the bucket must
+         * point at the new one even if growing the values fails below.
+         * self->size is left unchanged in that case, which is still correct.
+         */
+        self->keys = keys;
 
         UNLESS (noval)
         {
             values = BTree_Realloc(self->values, sizeof(VALUE_TYPE) * newsize);
             if (values == NULL)
-            {
-                free(keys);
                 return -1;
-            }
             self->values = values;
         }
-        self->keys = keys;
     }
     else
     {
